@@ -1,8 +1,311 @@
-//! C14 runner (stub). Replace the body; keep the signature `pub fn run(args: &[String])`.
-#[allow(unused_imports)]
-use crate::common::{catch, each_line, opt_i64};
+//! C14: drive the REAL import resolvers / module collectors / type checker of /repo on directory
+//! trees that the check has written to disk.
+//!
+//! `vharness run c14 <root>`: stdin has one tab-separated command per line, one result line each.
+//! Paths in results are printed relative to `<root>` (absolute if outside it). Every generated file
+//! starts with the line `# F <id>`; a loaded module is identified by that id, read back from the
+//! `source` the real code returns (so the file the real code opened is observed, not recomputed).
+//!
+//!   rip  <base_dir> <import stmt>      frontend::module::resolve_import_path  -> `S <path>` | `N`
+//!   imp  <import stmt>                 parser only -> `K <M|F|O> <abs 0/1> <levels> <seg.seg>` | `E`
+//!   cli  <cwd> <entry>                 cli::commands::collect_modules          -> `OK name,segs,id;...` | `ERR text`
+//!   mr   <cwd> <entry>                 frontend::resolver::ModuleResolver      -> same format
+//!   mc   <cwd> <entry>                 frontend::module::ModuleCollector       -> `OK id;id` (sorted) | `ERR text`
+//!   lsp  <entry abs path>              in-process tower-lsp didOpen            -> `OK deps=<path;..> self=<n> diags=<msg||msg>`
+//!                                      (deps = files for which the server published diagnostics; self = how often the entry was loaded as a dependency)
+//!   check <cwd> <entry>                collect_modules + TypeChecker::check_with_imports (body of check_file)
+//!                                      -> `PASS` | `FAIL msg||msg` | `ERR text`
+//!   checkcli <cwd> <entry> <ms>        child process running the real cli::commands::check_file with a timeout
+//!                                      -> `PASS` | `FAIL text` | `TIMEOUT` | `CRASH text`
+//!   `vharness run c14 --child-check <cwd> <entry>` is that child.
+use crate::common::{catch, each_line};
+use std::path::{Path, PathBuf};
+use std::sync::{Arc, Mutex};
 
-pub fn run(_args: &[String]) {
-    eprintln!("c14: runner not implemented");
-    std::process::exit(2);
+use incan::frontend::ast::{Declaration, ImportDecl, ImportKind, Program};
+
+fn rel(root: &str, p: &str) -> String {
+    if root.is_empty() {
+        return p.to_string();
+    }
+    let pre = format!("{}/", root.trim_end_matches('/'));
+    match p.strip_prefix(&pre) {
+        Some(r) => r.to_string(),
+        None => p.to_string(),
+    }
+}
+
+fn file_id(source: &str) -> String {
+    let first = source.lines().next().unwrap_or("");
+    match first.strip_prefix("# F ") {
+        Some(id) => id.trim().to_string(),
+        None => "?".to_string(),
+    }
+}
+
+fn parse_program(src: &str) -> Result<Program, String> {
+    let tokens = incan::lexer::lex(src).map_err(|e| format!("lex: {}", e.iter().map(|x| x.message.clone()).collect::<Vec<_>>().join("; ")))?;
+    incan::parser::parse(&tokens).map_err(|e| format!("parse: {}", e.iter().map(|x| x.message.clone()).collect::<Vec<_>>().join("; ")))
+}
+
+fn first_import(src: &str) -> Result<ImportDecl, String> {
+    let text = format!("{}\n", src);
+    let prog = parse_program(&text)?;
+    for d in &prog.declarations {
+        if let Declaration::Import(i) = &d.node {
+            return Ok(i.clone());
+        }
+    }
+    Err("no import".to_string())
+}
+
+fn clean(s: &str) -> String {
+    // strip ANSI colour sequences and newlines
+    let mut out = String::new();
+    let mut it = s.chars().peekable();
+    while let Some(c) = it.next() {
+        if c == '\u{1b}' {
+            for d in it.by_ref() {
+                if d == 'm' {
+                    break;
+                }
+            }
+        } else if c == '\n' || c == '\r' || c == '\t' {
+            out.push(' ');
+        } else {
+            out.push(c);
+        }
+    }
+    out
+}
+
+fn with_cwd<T>(cwd: &str, f: impl FnOnce() -> T) -> T {
+    let old = std::env::current_dir().ok();
+    if !cwd.is_empty() {
+        std::env::set_current_dir(cwd).expect("cwd");
+    }
+    let r = f();
+    if let Some(o) = old {
+        let _ = std::env::set_current_dir(o);
+    }
+    r
+}
+
+fn show_import(i: &ImportDecl) -> String {
+    let (k, p) = match &i.kind {
+        ImportKind::Module(p) => ("M", Some(p)),
+        ImportKind::From { module, .. } => ("F", Some(module)),
+        _ => ("O", None),
+    };
+    match p {
+        Some(p) => format!("K {} {} {} {}", k, if p.is_absolute { 1 } else { 0 }, p.parent_levels, p.segments.join(".")),
+        None => format!("K {} 0 0 ", k),
+    }
+}
+
+fn lsp_open(entry: &Path) -> Result<(Vec<String>, Vec<String>, usize), String> {
+    use futures_util::StreamExt;
+    use tower_lsp::jsonrpc::Request;
+    use tower_lsp::LspService;
+    use tower_service::Service;
+
+    let text = std::fs::read_to_string(entry).map_err(|e| format!("read: {}", e))?;
+    let uri = tower_lsp::lsp_types::Url::from_file_path(entry).map_err(|_| "bad uri".to_string())?;
+    let rt = tokio::runtime::Builder::new_current_thread().enable_all().build().map_err(|e| e.to_string())?;
+    let seen: Arc<Mutex<Vec<(String, Vec<String>)>>> = Arc::new(Mutex::new(Vec::new()));
+    let seen2 = seen.clone();
+    rt.block_on(async move {
+        let (mut service, mut socket) = LspService::new(incan::lsp::IncanLanguageServer::new);
+        let drain = tokio::spawn(async move {
+            while let Some(req) = socket.next().await {
+                if req.method() == "textDocument/publishDiagnostics" {
+                    if let Some(p) = req.params() {
+                        let u = p.get("uri").and_then(|x| x.as_str()).unwrap_or("").to_string();
+                        let msgs: Vec<String> = p
+                            .get("diagnostics")
+                            .and_then(|d| d.as_array())
+                            .map(|a| a.iter().map(|d| d.get("message").and_then(|m| m.as_str()).unwrap_or("").to_string()).collect())
+                            .unwrap_or_default();
+                        seen2.lock().unwrap().push((u, msgs));
+                    }
+                }
+            }
+        });
+        let init = Request::build("initialize").params(serde_json::json!({"capabilities": {}})).id(1).finish();
+        let _ = service.call(init).await;
+        let inited = Request::build("initialized").params(serde_json::json!({})).finish();
+        let _ = service.call(inited).await;
+        let open = Request::build("textDocument/didOpen")
+            .params(serde_json::json!({"textDocument": {"uri": uri.to_string(), "languageId": "incan", "version": 1, "text": text}}))
+            .finish();
+        let _ = service.call(open).await;
+        drop(service);
+        let _ = tokio::time::timeout(std::time::Duration::from_millis(3000), drain).await;
+    });
+    let entry_uri = tower_lsp::lsp_types::Url::from_file_path(entry).unwrap().to_string();
+    let mut deps = Vec::new();
+    let mut diags = Vec::new();
+    let mut entry_pubs = 0usize;
+    for (u, msgs) in seen.lock().unwrap().iter() {
+        if *u == entry_uri {
+            // the last publication for the entry carries its diagnostics; earlier ones mean that
+            // the entry was itself loaded as a dependency
+            diags = msgs.clone();
+            entry_pubs += 1;
+        } else {
+            let p = tower_lsp::lsp_types::Url::parse(u).ok().and_then(|x| x.to_file_path().ok()).map(|x| x.to_string_lossy().to_string()).unwrap_or(u.clone());
+            deps.push(p);
+        }
+    }
+    Ok((deps, diags, entry_pubs.saturating_sub(1)))
+}
+
+fn do_check(entry: &str) -> String {
+    use incan::typechecker::TypeChecker;
+    let modules = match incan::cli::commands::collect_modules(entry) {
+        Ok(m) => m,
+        Err(e) => return format!("ERR {}", clean(&e.message)),
+    };
+    let Some(main_module) = modules.last() else {
+        return "ERR No modules found".to_string();
+    };
+    let deps: Vec<(&str, &Program)> = modules[..modules.len() - 1].iter().map(|m| (m.name.as_str(), &m.ast)).collect();
+    let mut checker = TypeChecker::new();
+    match checker.check_with_imports(&main_module.ast, &deps) {
+        Ok(()) => "PASS".to_string(),
+        Err(errs) => format!("FAIL {}", errs.iter().map(|e| clean(&e.message)).collect::<Vec<_>>().join("||")),
+    }
+}
+
+fn child_check(cwd: &str, entry: &str) -> i32 {
+    if !cwd.is_empty() {
+        std::env::set_current_dir(cwd).expect("cwd");
+    }
+    match incan::cli::commands::check_file(entry) {
+        Ok(_) => {
+            println!("C14-CHILD PASS");
+            0
+        }
+        Err(e) => {
+            println!("C14-CHILD FAIL {}", clean(&e.message));
+            0
+        }
+    }
+}
+
+fn spawn_check(cwd: &str, entry: &str, ms: u64) -> String {
+    use std::io::Read;
+    use std::process::{Command, Stdio};
+    let exe = std::env::current_exe().expect("exe");
+    let mut child = match Command::new(exe)
+        .args(["run", "c14", "--child-check", cwd, entry])
+        .stdin(Stdio::null())
+        .stdout(Stdio::piped())
+        .stderr(Stdio::piped())
+        .spawn()
+    {
+        Ok(c) => c,
+        Err(e) => return format!("CRASH spawn: {}", e),
+    };
+    let t0 = std::time::Instant::now();
+    loop {
+        match child.try_wait() {
+            Ok(Some(status)) => {
+                let mut out = String::new();
+                let mut err = String::new();
+                if let Some(mut o) = child.stdout.take() {
+                    let _ = o.read_to_string(&mut out);
+                }
+                if let Some(mut e) = child.stderr.take() {
+                    let _ = e.read_to_string(&mut err);
+                }
+                for l in out.lines() {
+                    if let Some(r) = l.strip_prefix("C14-CHILD ") {
+                        return r.to_string();
+                    }
+                }
+                return format!("CRASH status={:?} stderr={}", status.code(), clean(&err.chars().take(300).collect::<String>()));
+            }
+            Ok(None) => {
+                if t0.elapsed().as_millis() as u64 > ms {
+                    let _ = child.kill();
+                    let _ = child.wait();
+                    return "TIMEOUT".to_string();
+                }
+                std::thread::sleep(std::time::Duration::from_millis(2));
+            }
+            Err(e) => return format!("CRASH wait: {}", e),
+        }
+    }
+}
+
+pub fn run(args: &[String]) {
+    if args.first().map(|s| s.as_str()) == Some("--child-check") {
+        let code = child_check(args.get(1).map(|s| s.as_str()).unwrap_or(""), args.get(2).map(|s| s.as_str()).unwrap_or(""));
+        std::process::exit(code);
+    }
+    let root = args.first().cloned().unwrap_or_default();
+    each_line(|line| {
+        let p: Vec<&str> = line.split('\t').collect();
+        let cmd = p[0];
+        let root = root.clone();
+        let r = catch(|| match cmd {
+            "imp" => match first_import(p[1]) {
+                Ok(i) => show_import(&i),
+                Err(e) => format!("E {}", clean(&e)),
+            },
+            "rip" => match first_import(p[2]) {
+                Ok(i) => match incan::frontend::module::resolve_import_path(Path::new(p[1]), &i) {
+                    Some(pb) => format!("S {}", rel(&root, &pb.to_string_lossy())),
+                    None => "N".to_string(),
+                },
+                Err(e) => format!("E {}", clean(&e)),
+            },
+            "cli" => with_cwd(p[1], || match incan::cli::commands::collect_modules(p[2]) {
+                Ok(ms) => format!(
+                    "OK {}",
+                    ms.iter().map(|m| format!("{},{},{}", m.name, m.path_segments.join("."), file_id(&m.source))).collect::<Vec<_>>().join(";")
+                ),
+                Err(e) => format!("ERR {}", clean(&e.message)),
+            }),
+            "mr" => with_cwd(p[1], || {
+                let mut r = incan::frontend::resolver::ModuleResolver::new();
+                match r.resolve(p[2]) {
+                    Ok(ms) => format!(
+                        "OK {}",
+                        ms.iter().map(|m| format!("{},{},{}", m.name, m.path_segments.join("."), file_id(&m.source))).collect::<Vec<_>>().join(";")
+                    ),
+                    Err(e) => format!("ERR {}", clean(&e.to_string())),
+                }
+            }),
+            "mc" => with_cwd(p[1], || {
+                let entry = PathBuf::from(p[2]);
+                let mut c = incan::frontend::module::ModuleCollector::new(&entry);
+                match c.collect(&entry) {
+                    Ok(ms) => {
+                        let mut ids: Vec<String> = ms.iter().map(|m| file_id(&m.source)).collect();
+                        ids.sort();
+                        format!("OK {}", ids.join(";"))
+                    }
+                    Err(es) => format!("ERR {}", es.iter().map(|e| clean(&e.message)).collect::<Vec<_>>().join("||")),
+                }
+            }),
+            "lsp" => match lsp_open(Path::new(p[1])) {
+                Ok((mut deps, diags, selfdep)) => {
+                    deps.sort();
+                    deps.dedup();
+                    let deps: Vec<String> = deps.iter().map(|d| rel(&root, d)).collect();
+                    format!("OK deps={} self={} diags={}", deps.join(";"), selfdep, diags.iter().map(|d| clean(d)).collect::<Vec<_>>().join("||"))
+                }
+                Err(e) => format!("ERR {}", clean(&e)),
+            },
+            "check" => with_cwd(p[1], || do_check(p[2])),
+            "checkcli" => spawn_check(p[1], p[2], p.get(3).and_then(|s| s.parse().ok()).unwrap_or(20000)),
+            _ => "E bad command".to_string(),
+        });
+        match r {
+            Ok(s) => s,
+            Err(msg) => format!("PANIC {}", clean(&msg)),
+        }
+    });
 }
